@@ -484,6 +484,8 @@ def exp_axioms(terms_):
         ax.append(EXP(t) * EXP(-t) == 1)
         ax.append(EXP(-t) > 0)
         ax.append(EXP(t) >= 1 + t)
+        # consequence of the first two (stated so that sigmoid forms match without search): e^-t / (1 + e^-t) == 1 / (1 + e^t)
+        ax.append(EXP(-t) / (1 + EXP(-t)) == 1 / (1 + EXP(t)))
     return ax
 
 
